@@ -52,6 +52,10 @@ struct P {
     fault: Fault,
     chunk: Chunking,
     yield_io: bool,
+    /// the rule stream's queue holds exactly the matching messages received completely before the failure and
+    /// its consumer only starts polling 1 ms (simulated) later: the error finds the queue full
+    #[serde(default)]
+    lazy_hits: bool,
 }
 
 fn sessions() -> Vec<Vec<Item>> {
@@ -141,7 +145,7 @@ impl Scenario for C38Scn {
         "fault_enumeration"
     }
     fn rule(&self) -> &'static str {
-        "scripted sessions (two pending calls, an unfiltered and a rule stream, an object server, then one more call and one more subscription after the failure); fault = {EOF with the whole socket gone, EOF on the inbound half only, ECONNRESET} at EVERY inbound byte offset 0..=len of the session plus EPIPE at each of the first 6 write calls, plus Connection::close() called by the application once the unfiltered stream has yielded n = 0..=len(session) messages, each under several seeded schedules / read-split profiles; quick enumerates the two fixed sessions completely, thorough adds seeded random sessions; every case with a fault inside the session is non-trivial; distinct = distinct (session, fault point, schedule) triples"
+        "scripted sessions (two pending calls, an unfiltered and a rule stream, an object server, then one more call and one more subscription after the failure); fault = {EOF with the whole socket gone, EOF on the inbound half only, ECONNRESET} at EVERY inbound byte offset 0..=len of the session plus EPIPE at each of the first 6 write calls, plus Connection::close() called by the application once the unfiltered stream has yielded n = 0..=len(session) messages, each under several seeded schedules / read-split profiles, a quarter of them with a rule stream whose queue is exactly as large as its backlog at the failure and whose consumer starts polling late (the error finds the queue full); quick enumerates the two fixed sessions completely, thorough adds seeded random sessions; every case with a fault inside the session is non-trivial; distinct = distinct (session, fault point, schedule) triples"
     }
     fn runs(&self, tier: Tier) -> u64 {
         let fixed: u64 = sessions().iter().map(|s| points(s) * SEEDS_PER_POINT).sum();
@@ -218,7 +222,7 @@ impl Scenario for C38Scn {
             _ => Chunking::Random,
         };
         let sched = SchedCfg::generate(rng, &["socket reader", "consumer", "caller"]);
-        (sched, j(&P { session, fault, chunk, yield_io: rng.chance(1, 2) }))
+        (sched, j(&P { session, fault, chunk, yield_io: rng.chance(1, 2), lazy_hits: rng.chance(1, 4) }))
     }
 
     fn shrink(&self, body: &Value) -> Vec<Value> {
@@ -228,6 +232,11 @@ impl Scenario for C38Scn {
             let mut q = p.clone();
             q.chunk = Chunking::Whole;
             q.yield_io = false;
+            out.push(j(&q));
+        }
+        if p.lazy_hits {
+            let mut q = p.clone();
+            q.lazy_hits = false;
             out.push(j(&q));
         }
         out
@@ -257,6 +266,17 @@ impl Scenario for C38Scn {
         let obs = shared(Obs::default());
 
         // ---- app ----
+        // capacity of the lazy rule stream: the matching messages completely received before the failure
+        let hits_cap: Option<usize> = if p.lazy_hits {
+            let (bytes, ranges) = script(&p.session, 1, 2);
+            let cut = match p.fault {
+                Fault::Eof(o) | Fault::EofHalf(o) | Fault::Reset(o) => o.min(bytes.len() as u64),
+                _ => bytes.len() as u64,
+            };
+            Some((0..p.session.len()).filter(|i| matches!(p.session[*i], Item::Hit(_)) && ranges[*i].1 <= cut).count().max(1))
+        } else {
+            None
+        };
         let o = obs.clone();
         let ww = w.clone();
         let p_fault = p.fault;
@@ -278,7 +298,7 @@ impl Scenario for C38Scn {
             };
             let all = MessageStream::from(&conn);
             let rule = MatchRule::builder().msg_type(zbus::message::Type::Signal).interface("org.c38.Sig").unwrap().member("Hit").unwrap().build();
-            let hits = match MessageStream::for_match_rule(rule.clone(), &conn, None).await {
+            let hits = match MessageStream::for_match_rule(rule.clone(), &conn, hits_cap).await {
                 Ok(s) => s,
                 Err(e) => {
                     o.lock().unwrap().setup_failed = Some(e.to_string());
@@ -307,7 +327,12 @@ impl Scenario for C38Scn {
                 let o = o.clone();
                 let ended = ended.clone();
                 let progress = progress.clone();
+                let w5 = ww.clone();
+                let lazy = which == 1 && hits_cap.is_some();
                 tasks.push(ww.spawn(name, async move {
+                    if lazy {
+                        w5.sleep_ns(1_000_000).await;
+                    }
                     while let Some(item) = stream.next().await {
                         let rec = match item {
                             Ok(m) => {
